@@ -221,7 +221,24 @@ def run_case(case):
     after = {}
     gc_garbage_before = len(gc.garbage)
 
+    # the interpreter is not always in its default state when the run starts:
+    # gc debug flags already on (overlapping the -G flags or not), other
+    # collection thresholds
+    orig_gc = (gc.get_threshold(), gc.get_debug())
+    pre_debug = pre_thr = None
+    if rng.random() < 0.4:
+        pre_debug = 0
+        for f in rng.sample(['DEBUG_UNCOLLECTABLE', 'DEBUG_STATS'],
+                            rng.choice([1, 1, 2])):
+            pre_debug |= getattr(gc, f)
+    if rng.random() < 0.3:
+        pre_thr = rng.choice([(650, 9, 8), (1000, 20, 20), (123, 10, 10)])
+
     def pre():
+        if pre_debug is not None:
+            gc.set_debug(pre_debug)
+        if pre_thr is not None:
+            gc.set_threshold(*pre_thr)
         before.update(snapshot())
 
     def post(res):
@@ -255,9 +272,16 @@ def run_case(case):
         if hasattr(_warnings, '_filters_mutated'):
             _warnings._filters_mutated()
         restore_state(before)
+        gc.set_threshold(*orig_gc[0])
+        gc.set_debug(orig_gc[1])
         del gc.garbage[gc_garbage_before:]
         vworld.destroy(scratch)
     C('snapshots_compared')
+    if pre_debug is not None or pre_thr is not None:
+        C('non_default_initial_state')
+        if pre_debug is not None and 'gcopt' in effects and any(
+                getattr(gc, f) & pre_debug for f in effects['gcopt']):
+            C('initial_gc_flags_overlap_G')
     if dropped_path:
         C('sys_path_dropped_cases')
     aborted = w.raised is not None
@@ -297,7 +321,7 @@ def run_case(case):
             flags = 0
             for f in effects['gcopt']:
                 flags |= getattr(gc, f)
-            if p['gc_debug'] == flags:
+            if p['gc_debug'] & flags == flags:
                 effective += 1
             else:
                 V('option-not-effective', 'vacuous-gcopt', got=p['gc_debug'])
